@@ -19,7 +19,7 @@ ASSUMPTIONS = ["reference grammar and lexer in vf/refparse.py (cross-checked on 
                "'0101' literals, import..as) are outside the grammar clause and not judged"]
 TIERS = {"quick": {"shards": 8, "budget_s": 60}, "thorough": {"shards": 16, "budget_s": 480}}
 REQUIRE = {"entry-points-compared": 2000, "illegal-character-texts-judged": 1500, "mutation:lookalike-digit": 200, "mutation:same-kind-nesting": 300, "mutation:refused-literal": 30, "mutation:exotic-character": 500,
-           "shards-reducing-every-production-of-the-listed-grammar": 1, "layouts-checked": 2000, "near-misses-judged": 5000, "both-reject:position-checked": 2000,
+           "shards-reducing-every-production-of-the-listed-grammar": 1, "layouts-checked": 2000, "near-misses-with-multiline-block-comment": 3000, "near-misses-judged": 5000, "both-reject:position-checked": 2000,
            "layout:multiple-block-comments": 100, "layout:multiline-block-comment": 50, "layout:line-comment": 200,
            "mutation:truncate": 500, "mutation:header-after-body": 100, "both-accept:tree-compared": 300}
 
@@ -210,10 +210,20 @@ def shrink_text(text, clause, prog):
     return None
 
 
-def render_tokens(toks):
+NEAR_MISS_COMMENTS = ["/* c */", "/* two\n   lines */", "/*\n\n\n*/", "/* a\n b */ /* c\n d\n e */", "// x\n/* y\n// z\n*/", "// plain\n",
+                      "/**/", "/* loop 2 { */", "/*\n*/\n"]
+
+
+def render_tokens(toks, lay=None):
+    """Tokens separated by single spaces; with `lay` (a random.Random) comments -- also ones that run over several
+    lines -- are put between some of them.  (A line comment brings a newline with it; the text is judged as it is.)"""
     out = []
     for t in toks:
         out.append("\n" if t == "\n" else t)
+        if lay is not None and lay.random() < 0.12:
+            out.append(lay.choice(NEAR_MISS_COMMENTS))
+    if lay is not None and lay.random() < 0.3:
+        out.insert(0, lay.choice(NEAR_MISS_COMMENTS))
     s = ""
     for t in out:
         if t == "\n":
@@ -393,7 +403,17 @@ def near_misses(ctx, prog, n):
         tail = rng.choice([" ", " // c", " /* c */ ", "\n", "]", " ; g"])
         cases.append(("refused-literal", ["register", "q", "[", "2", "]", "\n", "g", lit + tail]))
     for kind, t in cases:
-        text = sx.to_text(hb) if kind == "header-after-body" else sx.to_text(nested) if kind == "same-kind-nesting" else render_tokens(t)
+        lay = random.Random(rng.randrange(1 << 30)) if rng.random() < 0.4 else None
+        if kind == "header-after-body":
+            text = sx.to_text(hb, lay, comments=True) if lay else sx.to_text(hb)
+        elif kind == "same-kind-nesting":
+            text = sx.to_text(nested, lay, comments=True) if lay else sx.to_text(nested)
+        else:
+            text = render_tokens(t, lay)
+        if lay is not None:
+            rec.count("near-misses-with-comments")
+            if re.search(r"/\*[^*]*\n", text):
+                rec.count("near-misses-with-multiline-block-comment")
         st, fails, info = judge_text(text)
         rec.case(text, nontrivial=len(prog) > 3)
         rec.count("mutation:" + kind)
